@@ -26,6 +26,51 @@ CLAIMED = {
         "ties) are reported as KNOWN-FINDING. Binding negative control: flip replaced by identity must be detected.",
         "DESIGN.md §4 C01, §9",
     ),
+    "C02": (
+        "TLC-enumerated ArrayProgram behaviours replayed; per-phase values, every fired rewrite (before/after) and fused-block "
+        "provenance recorded from dask_array and validated by TLC (Trace_Obs: Collection.PhasesVerdict/RewriteVerdict/FusionVerdict)",
+        "Exhaustive within bounds over the lean parameter domains (strided deterministically in the quick tier): every behaviour "
+        "of ArrayProgram.tla of depth 1, of depth 2 (any operation, then any operation on its result; and the directed family "
+        "'anything, then slice / take / rechunk'), and slice/rechunk chains of depth 3, each under chunk-grid variants. For every "
+        "collection the raw, simplified, lowered, fused and pinned forms are executed by the driver's own scheduler and compared by "
+        "TLC with each other and with the TLC-computed denotation; every _simplify_down/_simplify_up/_lower hook that fires is "
+        "recorded with the expressions before/after, both evaluated from their own un-optimized graphs, and TLC checks equal shape, "
+        "dtype and values; for fused trees the input blocks reached per output block must equal those of the un-fused graph.",
+        "A phase that raises where the raw form computes is reported by C08 (accepted here). Binding negative control: corrupted "
+        "observations must all be rejected by TLC. Trusted: harness/obs_programs.py, harness/record.py (wrappers), NdArray.tla.",
+        "DESIGN.md §4 C02, §9",
+    ),
+    "C03": (
+        "TLC-enumerated ArrayProgram behaviours replayed; every output block of the pinned graph recorded (shape, dtype) and "
+        "validated by TLC against the advertised layout (Trace_Obs: Collection.BlocksVerdict)",
+        "Exhaustive within bounds (same corpora as C02): the advertised shape/chunks/dtype are read before any graph exists, the "
+        "pinned graph is executed key by key, and TLC checks that there is exactly one block per index of the advertised grid, each "
+        "with the advertised per-axis size and dtype, and that the assembled result has the advertised shape and dtype (unknown "
+        "sizes only fix the number of blocks).",
+        "Collections whose graph cannot be built or executed are C08's / C01's subject (counted, not judged).",
+        "DESIGN.md §4 C03, §9",
+    ),
+    "C04": (
+        "TLC-enumerated ArrayProgram behaviours replayed; exported task graphs (optimize-graph on and off) validated by TLC against "
+        "TaskGraph.tla (GraphVerdict); TaskGraph.tla itself model-checked over all schedules of small graphs",
+        "Exhaustive within bounds (same corpora): for every collection, `__dask_keys__()` and `__dask_graph__()` are exported into "
+        "the vocabulary of TaskGraph.tla and TLC checks: every dependency defined (closed), every task can run (acyclic: least "
+        "fixpoint of runnable tasks = all tasks), every advertised key defined, keys = (collection name) x (advertised block grid) "
+        "in C order, name unchanged by building the graph.",
+        "Binding negative control: graphs with an injected dangling dependency, cycle, renamed or shifted key must all be rejected.",
+        "DESIGN.md §4 C04, §9",
+    ),
+    "C08": (
+        "TLC-enumerated ArrayProgram behaviours replayed; pass-by-pass optimization traces recorded and validated by TLC against "
+        "the pass machine of Optimizer.tla (OptimizeVerdict); Optimizer.tla model-checked for termination",
+        "Exhaustive within bounds (same corpora): every collection whose raw graph computes is simplified and lowered pass by pass "
+        "(root name after every simplify_once / lower_once), fused, and optimized / simplified / lowered a second time. TLC checks "
+        "that no stage raises, the pass sequence never returns to a name it left and ends within the pass budget, the second "
+        "optimization keeps the name, and the optimized graph executes.",
+        "Known finding F10 (a second optimize() simplifies slice nodes created by lowering next to pad/roll concatenates) is reported "
+        "as KNOWN-FINDING. Fixed: reshape_rechunk IndexError (fix: commit c10f59b).",
+        "DESIGN.md §4 C08, §9",
+    ),
     "C13": (
         "TLC-enumerated helper inputs; recorded outputs validated by TLC against Planner.tla (Trace_Plan)",
         "Exhaustive within bounds: TLC enumerates every (slice|int, axis length, chunking, pair of indices) of the "
